@@ -1,6 +1,6 @@
 (* C20 — size arithmetic never wraps.  Statements only; proofs in theories/PMem_proofs.v.
    [w] is the width of size_t in bits: every theorem holds for any width, in particular 64. *)
-From CB Require Import Word PMem PItem SpecItem PMem_proofs Bridge_config GenLeafTypes Bridge_leaf_mem Bridge_inventory.
+From CB Require Import Word PMem PItem SpecItem PSize PSize_proofs PMem_proofs Bridge_config GenLeafTypes Bridge_leaf_mem Bridge_inventory.
 From CBGen Require Import Gen_inventory.
 From CBGen Require Import Gen_leaf.
 From CBGen Require Import Gen_config.
@@ -76,3 +76,11 @@ Theorem C20_no_narrowing_from_64 : forallb (fun g => let '(_, _, from, _, _) := 
 Proof. exact bridge_no_narrowing_from_64. Qed.
 Theorem C20_field_widths : forallb field_is_64 required_fields = true.
 Proof. exact bridge_field_widths. Qed.
+
+(* ... and for trees with ARBITRARY declared string lengths (PSize.v: a string is only its declared
+   length, as when length metadata is not backed by data): exact total or 0 *)
+Theorem C20_size_declared_lengths : forall t, wf_s t -> ssize_s t = if total_s t <? 2^64 then total_s t else 0.
+Proof. exact ssize_s_exact_or_zero. Qed.
+Theorem C20_size_is_shape_size : forall t, ssize t = ssize_s (shape t).
+Proof. exact ssize_shape. Qed.
+Print Assumptions C20_size_declared_lengths.
